@@ -262,15 +262,18 @@ Needed(r) == LET A == Applicable(r) IN
                   IF N # { } THEN N
                   ELSE CHOOSE Y \in SUBSET A : Explains(r, Y) /\ \A Z \in SUBSET A : Explains(r, Z) => Cardinality(Z) >= Cardinality(Y)
 
-\* first clause that an unexplained line fails (diagnosis only; printed with the line number)
-Why(r) ==
+\* first clause that an unexplained line fails with the relaxations X switched on (diagnosis only; printed
+\* with the line number): for a "new" line X = all applicable findings, so the clause named is the one that no
+\* known finding explains
+WhyX(r, X) ==
   CASE r.e = "Write" /\ img # None ->
-         (IF ~W_status(r) THEN "W_status" ELSE IF ~W_format(r) THEN "W_format" ELSE IF ~W_headers(r, { }) THEN "W_headers"
-          ELSE IF ~W_layout(r, { }) THEN "W_layout" ELSE IF ~W_data(r, { }) THEN "W_data" ELSE "W_userscale")
+         (IF ~W_status(r) THEN "W_status" ELSE IF ~W_format(r) THEN "W_format" ELSE IF ~W_headers(r, X) THEN "W_headers"
+          ELSE IF ~W_layout(r, X) THEN "W_layout" ELSE IF ~W_data(r, X) THEN "W_data" ELSE "W_userscale")
     [] r.e = "Read" /\ img # None /\ wr # None ->
-         (IF ~R_status(r) THEN "R_status" ELSE IF ~R_shape(r) THEN "R_shape" ELSE IF ~R_geom(r, { }) THEN "R_geom"
-          ELSE IF ~R_values(r, { }) THEN "R_values" ELSE "R_exam")
+         (IF ~R_status(r) THEN "R_status" ELSE IF ~R_shape(r) THEN "R_shape" ELSE IF ~R_geom(r, X) THEN "R_geom"
+          ELSE IF ~R_values(r, X) THEN "R_values" ELSE "R_exam")
     [] OTHER -> r.e
+Why(r, N) == IF N = { "new" } THEN WhyX(r, Applicable(r)) ELSE WhyX(r, { })
 
 Count(cls) == Len(SelectSeq(bad, LAMBDA x : x[2] = cls))
 Init == l = 1 /\ env = None /\ img = None /\ wr = None /\ bad = << >>
@@ -280,7 +283,7 @@ Next == /\ l <= Len(TraceLog)
            /\ img' = IF r.e = "Img" THEN r ELSE img
            /\ wr' = IF r.e = "Write" THEN r ELSE IF r.e = "Img" THEN None ELSE wr
            /\ IF Explains(r, { }) THEN bad' = bad
-              ELSE LET N == Needed(r) why == Why(r)
+              ELSE LET N == Needed(r) why == Why(r, N)
                        \* new unexplained lines are all kept (cap 500); of a known class only the first 30 witnesses
                        add == SetToSeq({ f \in N : Count(f) < (IF f = "new" THEN 500 ELSE 30) }) IN
                    bad' = bad \o [i \in 1..Len(add) |-> << l, add[i], why >>]
